@@ -57,6 +57,8 @@ def doc_corpus():
          "class A { public string n; public constructor(string n) -> A { this.n = n; echo(\"A ctor \" + n); } public destructor() -> void { echo(\"~A \" + this.n); } }\n"
          "static class H { public static A inst = new A(\"s\"); public static function drop() -> void { destroy inst; } public static function peek() -> boolean { return true; } }\n"
          "function main() -> void { echo(\"main\"); H.drop(); echo(\"dropped\"); echo(H.peek()); }", "A ctor s\nmain\n~A s\ndropped\ntrue\n"),
+        ("a static initialiser calls a top-level function",
+         "static class S { public static int v = twice(4) + 1; }\nfunction twice(int x) -> int { return x + x; }\nfunction main() -> void { echo(S.v); }", "9\n"),
         ("static initialisers across classes, whatever the declaration order",
          "class A { public static int x = B.y + 1; public constructor() -> A { } }\nclass B { public static int y = C.z * 2; public constructor() -> B { } }\n"
          "class C { public static int z = 5; public constructor() -> C { } }\nfunction main() -> void { echo(A.x); echo(B.y); }", "11\n10\n"),
